@@ -1256,6 +1256,95 @@ Proof.
   - intros S HS. cbn [with_sizes pwsize]. rewrite H2, HS, wrapu_sub_l. f_equal. lia.
 Qed.
 
+(* ---- the hill climber's transfers keep the bookkeeping invariant, whatever the amount *)
+Lemma PIX_move_to dw dww dpw ex p cn co id nd q2 :
+  PIX dw dww dpw ex p cn co -> sget (store p) id = Some nd -> linked p id ->
+  (q2 = QWINDOW \/ q2 = QPROBATION \/ q2 = QPROTECTED) -> q2 <> pqueue nd ->
+  PIX dw (dww + tagw QWINDOW (pqueue nd) (pweight nd) - tagw QWINDOW q2 (pweight nd))
+         (dpw + tagw QPROTECTED (pqueue nd) (pweight nd) - tagw QPROTECTED q2 (pweight nd)) ex (move_to p id q2) cn co.
+Proof.
+  intros HP Es Hl Hq Hne. unfold move_to. rewrite (node_of_some p id nd Es).
+  exact (PIX_move dw dww dpw ex p cn co id nd q2 HP Es Hl Hq Hne).
+Qed.
+
+Lemma PIX_with_maxima dw dww dpw ex p cn co m wm pm :
+  PIX dw dww dpw ex p cn co -> PIX dw dww dpw ex (with_maxima p m wm pm) cn co.
+Proof.
+  intros HP. apply (PIX_counters _ _ _ _ _ _ _ p) with (8 := HP); try reflexivity; intros S HS; exact HS.
+Qed.
+
+Lemma PIX_increase_loop dw dww dpw ex cn co fuel : forall p quota,
+  PIX dw dww dpw ex p cn co -> PIX dw dww dpw ex (fst (increase_loop fuel p quota)) cn co.
+Proof.
+  induction fuel as [|f IH]; intros p quota HP; cbn [increase_loop]; [exact HP|].
+  (* the candidate, the deque it heads, its node *)
+  assert (Hcase : forall c (isprob : bool), (if isprob then In c (qprob p) else In c (qprot p)) ->
+            PIX dw dww dpw ex (fst (let w := pweight (node_of p c) in
+                 if quota <? w then (p, quota) else
+                 let p1 := move_to p c QWINDOW in
+                 let p2 := with_sizes p1 (wsize p1) (wrapu (wwsize p1 + w)) (if isprob then pwsize p1 else wrapu (pwsize p1 - w)) in
+                 increase_loop f p2 (quota - w))) cn co).
+  { intros c isprob Hin. cbv zeta.
+    assert (Hnd : exists nd, sget (store p) c = Some nd /\ pqueue nd = (if isprob then QPROBATION else QPROTECTED) /\ linked p c).
+    { destruct isprob.
+      - destruct (pi_prob _ _ _ _ _ _ _ HP c Hin) as (nd & Es & Hq & _). exists nd. repeat split; [exact Es|exact Hq|right; left; exact Hin].
+      - destruct (pi_prot _ _ _ _ _ _ _ HP c Hin) as (nd & Es & Hq & _). exists nd. repeat split; [exact Es|exact Hq|right; right; exact Hin]. }
+    destruct Hnd as (nd & Es & Hq & Hl). rewrite (node_of_some p c nd Es).
+    destruct (quota <? pweight nd); [exact HP|]. apply IH.
+    pose proof (PIX_move_to dw dww dpw ex p cn co c nd QWINDOW HP Es Hl ltac:(left; reflexivity)
+                  ltac:(rewrite Hq; destruct isprob; discriminate)) as HM.
+    apply (PIX_counters _ _ _ _ _ _ _ (move_to p c QWINDOW)) with (8 := HM); try reflexivity.
+    - intros S HS. exact HS.
+    - intros S HS. cbn [with_sizes wwsize]. rewrite HS, wrapu_add_l. f_equal. rewrite Hq. unfold tagw, QWINDOW, QPROBATION, QPROTECTED.
+      destruct isprob; cbn; lia.
+    - intros S HS. cbn [with_sizes pwsize]. rewrite Hq in HS.
+      assert (T1 : forall x, tagw QPROTECTED QPROBATION x = 0) by reflexivity.
+      assert (T2 : forall x, tagw QPROTECTED QWINDOW x = 0) by reflexivity.
+      assert (T3 : forall x, tagw QPROTECTED QPROTECTED x = x) by reflexivity.
+      destruct isprob; rewrite ?T1, ?T2, ?T3 in HS; [rewrite HS; f_equal; lia|rewrite HS, wrapu_sub_l; f_equal; lia]. }
+  destruct (dq_head (qprob p)) as [c|] eqn:Eh.
+  - destruct (quota <? pweight (node_of p c)).
+    + destruct (dq_head (qprot p)) as [c2|] eqn:Eh2; [|exact HP]. apply (Hcase c2 false). apply dq_head_in. exact Eh2.
+    + apply (Hcase c true). apply dq_head_in. exact Eh.
+  - destruct (dq_head (qprot p)) as [c2|] eqn:Eh2; [|exact HP]. apply (Hcase c2 false). apply dq_head_in. exact Eh2.
+Qed.
+
+Lemma PIX_decrease_loop dw dww dpw ex cn co fuel : forall p quota,
+  PIX dw dww dpw ex p cn co -> PIX dw dww dpw ex (fst (decrease_loop fuel p quota)) cn co.
+Proof.
+  induction fuel as [|f IH]; intros p quota HP; cbn [decrease_loop]; [exact HP|].
+  destruct (dq_head (qwin p)) as [c|] eqn:Eh; [|exact HP]. cbv zeta.
+  assert (Hin : In c (qwin p)) by (apply dq_head_in; exact Eh).
+  destruct (pi_win _ _ _ _ _ _ _ HP c Hin) as (nd & Es & Hq & _). rewrite (node_of_some p c nd Es).
+  destruct (quota <? pweight nd); [exact HP|]. apply IH.
+  pose proof (PIX_move_to dw dww dpw ex p cn co c nd QPROBATION HP Es ltac:(left; exact Hin) ltac:(right; left; reflexivity)
+                ltac:(rewrite Hq; discriminate)) as HM.
+  apply (PIX_counters _ _ _ _ _ _ _ (move_to p c QPROBATION)) with (8 := HM); try reflexivity.
+  - intros S HS. exact HS.
+  - intros S HS. cbn [with_sizes wwsize]. rewrite HS, wrapu_sub_l. f_equal. rewrite Hq. unfold tagw, QWINDOW, QPROBATION. cbn. lia.
+  - intros S HS. cbn [with_sizes pwsize]. rewrite HS. f_equal. rewrite Hq. unfold tagw, QWINDOW, QPROBATION, QPROTECTED. cbn. lia.
+Qed.
+
+Lemma PIX_pol_climb_adj dw dww dpw ex cn co adj p :
+  PIX dw dww dpw ex p cn co -> PIX dw dww dpw ex (fst (pol_climb_adj adj p)) cn co.
+Proof.
+  intros HP. unfold pol_climb_adj. pose proof (PIX_pol_climb dw dww dpw ex cn co p HP) as H0. unfold pol_climb in H0.
+  destruct (adj =? 0); [exact H0|]. destruct (adj >? 0).
+  - unfold pol_increase_window. destruct (pmax (pol_demote p) =? 0); [exact H0|]. cbv zeta.
+    set (q0 := if pmax (pol_demote p) <? adj then pmax (pol_demote p) else adj).
+    set (p1 := with_maxima (pol_demote p) (maxi (pol_demote p)) (wrapu (wmax (pol_demote p) + q0)) (wrapu (pmax (pol_demote p) - q0))).
+    assert (H1 : PIX dw dww dpw ex p1 cn co) by (apply PIX_with_maxima; exact H0).
+    pose proof (PIX_pol_climb dw dww dpw ex cn co p1 H1) as H2. unfold pol_climb in H2.
+    pose proof (PIX_increase_loop dw dww dpw ex cn co 1000 (pol_demote p1) q0 H2) as H3.
+    destruct (increase_loop 1000 (pol_demote p1) q0) as [p3 quota]. cbn [fst] in *. apply PIX_with_maxima. exact H3.
+  - unfold pol_decrease_window. destruct (wmax (pol_demote p) <=? 1); [exact H0|]. cbv zeta.
+    set (q0 := if wmax (pol_demote p) - 1 <? - adj then wmax (pol_demote p) - 1 else - adj).
+    set (p1 := with_maxima (pol_demote p) (maxi (pol_demote p)) (wrapu (wmax (pol_demote p) - q0)) (wrapu (pmax (pol_demote p) + q0))).
+    assert (H1 : PIX dw dww dpw ex p1 cn co) by (apply PIX_with_maxima; exact H0).
+    pose proof (PIX_decrease_loop dw dww dpw ex cn co 1000 p1 q0 H1) as H3.
+    destruct (decrease_loop 1000 p1 q0) as [p2 quota]. cbn [fst] in *. apply PIX_with_maxima. exact H3.
+Qed.
+
 (* ================================================================================================ *)
 (* ---- the maintenance model: index actions create tasks, tasks reach the write buffer in ANY order,
         maintenance consumes them *)
@@ -1529,9 +1618,9 @@ Proof.
   destruct (MI_evict_node m pend id HM) as [H1 H2]. destruct (IH _ pend H1) as [H3 H4]. split; [exact H3|rewrite H4; exact H2].
 Qed.
 
-Theorem MI_maintenance hashf cur rnd now m fl :
+Theorem MI_maintenance hashf cur rnd now adj m fl :
   MI m (fl ++ wbuf m) ->
-  let m' := fst (fst (fst (m_maintenance hashf cur rnd now m))) in
+  let m' := fst (fst (fst (m_maintenance hashf cur rnd now adj m))) in
   MI m' fl /\ wbuf m' = [].
 Proof.
   intros HM. unfold m_maintenance.
@@ -1557,7 +1646,7 @@ Proof.
   set (m4 := fold_left (fun mm id => if m_expire mm then with_whl mm (wheel_delete (whl mm) id) else mm) ids (with_pol m3 p)) in *.
   cbv zeta. rewrite B. cbn [m_evict with_pol]. rewrite He3. cbn [fst].
   split; [split; [cbn [m_evict with_pol]; rewrite B; exact He3|]|cbn [wbuf with_pol]; rewrite C; exact Ew3].
-  cbn [pol with_pol]. apply PIX_pol_climb. rewrite A. exact H4.
+  cbn [pol with_pol]. apply PIX_pol_climb_adj. rewrite A. exact H4.
 Qed.
 
 (* ---- the whole system: index actions, tasks in flight, maintenance *)
@@ -1577,7 +1666,7 @@ Inductive mev :=
 | ERemove (old : Z)                  (* ... removes the current node old *)
 | ERead (id : Z)                     (* a read hands a node to the read buffer *)
 | EPush (k : nat)                    (* the k-th task in flight reaches the write buffer: ANY order *)
-| EMaint (cur : Z -> Z) (rnd now : Z)
+| EMaint (cur : Z -> Z) (rnd now adj : Z)
 | ESetMax (mx wm pm : Z).
 
 Definition sys_step (hashf : Z -> Z -> Z) (s : msys) (e : mev) : msys :=
@@ -1590,7 +1679,7 @@ Definition sys_step (hashf : Z -> Z -> Z) (s : msys) (e : mev) : msys :=
                | Some t => mkSys (m_push (sm s) t) (remove_nth k (sfl s))
                | None => s
                end
-  | EMaint cur rnd now => mkSys (fst (fst (fst (m_maintenance hashf cur rnd now (sm s))))) (sfl s)
+  | EMaint cur rnd now adj => mkSys (fst (fst (fst (m_maintenance hashf cur rnd now adj (sm s))))) (sfl s)
   | ESetMax mx wm pm => mkSys (m_set_maximum (sm s) mx wm pm) (sfl s)
   end.
 
@@ -1675,7 +1764,7 @@ Proof.
     + intros id. rewrite !cnew_app. rewrite (cnew_remove_nth (sfl s) k t id En). cbn [cnew]. lia.
     + intros id. rewrite !cold_app. rewrite (cold_remove_nth (sfl s) k t id En). cbn [cold]. lia.
   - (* maintenance *)
-    destruct (MI_maintenance hashf cur rnd now (sm s) (sfl s) (conj He HP)) as [[A B] C]. cbv zeta in A, B, C.
+    destruct (MI_maintenance hashf cur rnd now adj (sm s) (sfl s) (conj He HP)) as [[A B] C]. cbv zeta in A, B, C.
     rewrite C, app_nil_r. split; assumption.
   - (* SetMaximum *)
     split; [exact He|]. unfold m_set_maximum. cbn [pol with_pol wbuf]. unfold pol_set_maximum.
